@@ -313,6 +313,9 @@ func Generate(profile string, seed uint64, tier string) (*Scenario, error) {
 	case "C07":
 		sc.Property = "C07"
 		genC07(g, sc, tier)
+	case "C04c":
+		sc.Property = "C04"
+		genC04c(g, sc, tier)
 	default:
 		return genOther(g, sc, profile, tier)
 	}
@@ -483,6 +486,8 @@ func Execute(sc *Scenario) *Verdict {
 		return RunConcScenario(sc)
 	case "C04", "C07", "C12x", "C13", "C19", "C20":
 		return RunCrashScenario(sc)
+	case "C04c":
+		return RunConcCrashScenario(sc)
 	}
 	return execOther(sc)
 }
